@@ -7,6 +7,7 @@ set_option linter.unusedVariables false
 def ClockSkewTolerance : Go.Duration := ((2 : Int) * Go.Minute)
 def ClockSkewToleranceFuture : Go.Duration := ((2 : Int) * Go.Minute)
 def ClockSkewTolerancePast : Go.Duration := ((10 : Int) * Go.Second)
+def absoluteSessionTimeout : Go.Duration := ((24 : Int) * Go.Hour)
 def accessTokenCookie : Go.Str := ['_','o','i','d','c','_','r','a','c','z','y','l','o','_','a']
 def defaultBlacklistDuration : Go.Duration := ((24 : Int) * Go.Hour)
 def maxCookieSize : Int := (2000 : Int)
@@ -1041,5 +1042,31 @@ def SessionData_GetIncomingPath (sd : Go.SessData) : Go.Str :=
 def SessionData_SetIncomingPath (sd : Go.SessData) (path : Go.Str) : Go.SessData :=
   let sd := Go.sessSetVal sd sd.mainSession ['i','n','c','o','m','i','n','g','_','p','a','t','h'] (Go.Any.str path)
   sd
+
+/-- SessionData.GetAuthenticated (session.go) -/
+def SessionData_GetAuthenticated (now : Go.Time) (sd : Go.SessData) : Bool :=
+  let (auth, _u1) := Go.asBool (Go.sessVal sd sd.mainSession ['a','u','t','h','e','n','t','i','c','a','t','e','d'])
+  if (!auth) then
+    false
+  else
+    let (createdAt, ok) := Go.asInt (Go.sessVal sd sd.mainSession ['c','r','e','a','t','e','d','_','a','t'])
+    if (!ok) then
+      false
+    else
+      (decide ((Go.timeSub now (Go.timeUnix createdAt (0 : Int))) ≤ absoluteSessionTimeout))
+
+/-- SessionData.SetAuthenticated (session.go) -/
+def SessionData_SetAuthenticated (now : Go.Time) (sd : Go.SessData) (value : Bool) : Go.Err × Go.SessData :=
+  if value then
+    let (id, err) := (sd.generateSecureRandomString (32 : Int))
+    if err.isSome then
+      ((some (['f','a','i','l','e','d',' ','t','o',' ','g','e','n','e','r','a','t','e',' ','s','e','c','u','r','e',' ','s','e','s','s','i','o','n',' ','i','d',':',' '] ++ (Go.errText err))), sd)
+    else
+      let sd := Go.sessSetVal sd sd.mainSession ['c','r','e','a','t','e','d','_','a','t'] (Go.Any.int (Go.timeToUnix now))
+      let sd := Go.sessSetVal sd sd.mainSession ['a','u','t','h','e','n','t','i','c','a','t','e','d'] (Go.Any.bool value)
+      ((none : Go.Err), sd)
+  else
+    let sd := Go.sessSetVal sd sd.mainSession ['a','u','t','h','e','n','t','i','c','a','t','e','d'] (Go.Any.bool value)
+    ((none : Go.Err), sd)
 
 end Oidc.Generated.Code
